@@ -220,6 +220,32 @@ int ops_codec(char **args, int na)
 		if (wrong) printf("edge wrong=%ld first=%s\n", wrong, first); else printf("edge ok n=%ld\n", nbuf);
 		return 0;
 	}
+	if (!strcmp(op, "crc.hist") && na == 3) {
+		/* crc.hist <len> <rounds>: the checksum is a function of the bytes only, not of what was checksummed before — the SAME
+		 * buffer (same address, same length) is checksummed again and again through the public entry point and both
+		 * implementations, with one byte changed between calls somewhere in the middle (first and last bytes untouched on odd
+		 * rounds), against a bytewise reference.   reply: hist ok n=<calls> | hist wrong=<k> first=<impl>:round<r> */
+		size_t len = strtoull(args[1], NULL, 10); long rounds = atol(args[2]);
+		if (len < 32 || len > (1u << 24)) return -1;
+		uint8_t *b = malloc(len + 8); uint8_t *p = b + 3;
+		uint64_t x = 0x2545F4914F6CDD1Dull;
+		for (size_t i = 0; i < len; i++) { x ^= x << 13; x ^= x >> 7; x ^= x << 17; p[i] = (uint8_t)(x >> 9); }
+		static uint32_t tab[256]; if (!tab[1]) for (uint32_t i = 0; i < 256; i++) { uint32_t c = i; for (int k = 0; k < 8; k++) c = (c & 1) ? (c >> 1) ^ 0x82F63B78u : c >> 1; tab[i] = c; }
+		int hw = my_crc32c_sse42_supported(); long wrong = 0, calls = 0; char first[64] = "";
+		for (long r = 0; r < rounds; r++) {
+			x ^= x << 13; x ^= x >> 7; x ^= x << 17;
+			size_t at = (r & 1) ? 16 + (size_t)(x % (len - 32)) : (size_t)(x % len);
+			p[at] ^= (uint8_t)(1u << (x >> 60 & 7));
+			uint32_t c = 0xffffffffu; for (size_t i = 0; i < len; i++) c = tab[(c ^ p[i]) & 0xff] ^ (c >> 8);
+			c ^= 0xffffffffu;
+			uint32_t got[3] = { mtbl_crc32c(p, len), my_crc32c_slicing(p, len), hw ? my_crc32c_sse42(p, len) : c };
+			static const char *nm[3] = { "api", "slicing", "sse42" };
+			for (int k = 0; k < 3; k++) { calls++; if (got[k] != c) { if (!wrong) snprintf(first, sizeof first, "%s:round%ld", nm[k], r); wrong++; } }
+		}
+		free(b);
+		if (wrong) printf("hist wrong=%ld first=%s\n", wrong, first); else printf("hist ok n=%ld\n", calls);
+		return 0;
+	}
 	if (!strcmp(op, "crc.cpu")) { puts(my_crc32c_sse42_supported() ? "sse42 1" : "sse42 0"); return 0; }
 	return -1;
 }
